@@ -1229,6 +1229,14 @@ pub fn run(ctx: &mut Ctx) {
             let mut pool = pool; let mut st = St::default(); let r = exec(c, &mut *pool, &ops, &mut st); c.set_nontrivial(true);
             match r { Ok(()) => Ok(()), Err(e) => { pool.abandon(); Err(e) } } })); }
     }
+    // non-preset ThreadLocalPoolConfig with small / odd arena sizes: arena_size/4 (the "large request" threshold) then falls
+    // between a request size and its size class, and the hot arena rolls over after a handful of blocks
+    for fam in [Fam::Mixed, Fam::Pairs] { for idx in 0..k(ctx, 12, 300) { ctx.case("tlmp/custom", &format!("small_arena_{}", fam.name()), idx, |c| in_thread(c, |c| history(c, fam, |c| {
+        let arena = match c.rng.below(4) { 0 => *c.rng.pick(&[4096usize, 8192, 16384, 12288]), 1 => 4097 + c.rng.usize_below(12_288), 2 => *c.rng.pick(&[5000usize, 6000, 10_000, 12_345, 16_383, 20_000, 40_000]), _ => 16_385 + c.rng.usize_below(50_000) };
+        let cfg = ThreadLocalPoolConfig { arena_size: arena, max_threads: 4, enable_stats: c.rng.bool(), sync_threshold: *c.rng.pick(&[1isize, 4096, 256 * 1024]), max_cached_chunks: *c.rng.pick(&[0usize, 1, 64]), use_secure_memory: c.rng.bool() };
+        let q = arena / 4; let mut tab = tl_tab(arena, false);
+        tab.big = vec![q.saturating_sub(9).max(1), q.saturating_sub(1).max(1), q.max(1), q + 1, q + 8, (q * 3 / 4).max(1), (arena / 8).max(1), 1024, 2048, 4096];
+        Ok(Setup { pool: tl_mk_cfg(c, "custom", cfg)?, tab, tagger: Box::new(tl_tags(arena)) }) }))); } }
     // ---- FixedCapacityMemoryPool ----
     for which in ["small", "medium", "realtime", "secure", "lazy", "custom"] {
         let target = format!("fc/{which}");
